@@ -28,8 +28,10 @@ OPN = {0: "Scope", 1: "Call", 2: "Resume", 3: "CancelCaller", 4: "Deliver", 5: "
        7: "CheckCancelledCall", 8: "SetTotal", 9: "ThreadReturn", 10: "NativeCancel", 11: "ArmSpawnFail",
        12: "RunAsyncCall", 13: "SpawnFail"}
 KINDS = {0: "return", 1: "raise", 2: "StopIteration", 3: "from_thread.run", 4: "from_thread.run_sync", 5: "contextvar",
-         6: "propagate check_cancelled", 7: "BaseException"}
-NKINDS = 8
+         6: "propagate check_cancelled", 7: "BaseException", 8: "falsy exception",
+         9: "from_thread.run_sync callback raises", 10: "from_thread.run callback raises"}
+NKINDS = 11
+FALSY_CODE = 999       # distinguished exception code of the model for "an exception whose bool() is False" (F47)
 SPAWN_MSG = "c14: can't start new thread"
 
 STEP_TIMEOUT = 5.0     # a step whose effect does not show within this time is reported as a hang
@@ -51,6 +53,18 @@ class MyErr(Exception):
     def __init__(self, code):
         super().__init__(code)
         self.code = code
+
+
+class FalsyErr(Exception):
+    """an exception whose truth value is False ("collection of problems" style: __len__() == 0).  F47: such exceptions
+    were dropped (None returned) by everything that unwraps a concurrent.futures.Future with .result()"""
+
+    def __init__(self, code):
+        super().__init__(code)
+        self.code = code
+
+    def __len__(self):
+        return 0
 
 
 class MyBase(BaseException):
@@ -142,6 +156,7 @@ class Run:
         self.rt_got: dict[int, object] = {}
         self.rt_reply: dict[int, tuple] = {}
         self.rt_task: dict[int, asyncio.Task] = {}
+        self.cb_exc_delivered = 0                   # exceptions of from_thread callbacks that reached the thread
         self.observations: dict[str, int] = {}      # recorded, not violations
         self.skipped = 0                            # plan ops that were not enabled
         self.max_live = 0
@@ -221,6 +236,26 @@ class Run:
                     return v
                 if kind == 7:
                     raise MyBase(v)
+                if kind == 8:
+                    raise FalsyErr(v)           # to_thread itself tests `exc is not None`: must arrive as is
+                if kind in (9, 10):
+                    # the callback run in the loop raises; the exception must come back to this thread.  Even values: an
+                    # exception with a false truth value (F47), odd values: an ordinary one
+                    exc_type = FalsyErr if v % 2 == 0 else MyErr
+                    try:
+                        if kind == 9:
+                            got = from_thread.run_sync(self.raising_sync, exc_type, v)
+                        else:
+                            got = from_thread.run(self.raising_async, exc_type, v)
+                        self.rt_bad.append(f"exception {exc_type.__name__}({v}) raised by the from_thread."
+                                           f"{'run_sync' if kind == 9 else 'run'} callback of function {k} was not delivered "
+                                           f"({got!r} returned)")
+                    except (FalsyErr, MyErr) as e:
+                        if type(e) is not exc_type or e.code != v:
+                            self.rt_bad.append(f"from_thread callback of function {k} raised {exc_type.__name__}({v}) but "
+                                               f"the thread received {e!r}")
+                        self.cb_exc_delivered += 1
+                    return v
                 raise AssertionError(kind)
         finally:
             with self.tlock:
@@ -251,6 +286,12 @@ class Run:
 
     def sfunc(self, v):
         return (3 * v + 2, threading.get_ident())
+
+    def raising_sync(self, exc_type, v):
+        raise exc_type(v)
+
+    async def raising_async(self, exc_type, v):
+        raise exc_type(v)
 
     # ------------------------------------------------------------------ loop-side callbacks
     def on_started(self, k, th):
@@ -335,6 +376,8 @@ class Run:
                     raise
                 except MyErr as e:
                     self.outcome[c] = (3, e.code)
+                except FalsyErr as e:
+                    self.outcome[c] = (3, FALSY_CODE if e.code == self.finish_sent.get(c, (0, None))[1] else 998)
                 except MyBase as e:
                     self.outcome[c] = (6, e.code)
                 except RuntimeError as e:
@@ -503,7 +546,7 @@ class Run:
             inside = not self.task[a].done()
             self.finish_sent[a] = (b, d)
             # what run_sync has to deliver to a caller that is still there (model-independent expectation)
-            self.finish_want[a] = {1: (3, d), 2: (4, 0), 7: (6, d)}.get(b, (0, d))
+            self.finish_want[a] = {1: (3, d), 2: (4, 0), 7: (6, d), 8: (3, FALSY_CODE)}.get(b, (0, d))
             if b == 6 and cancelled_now:
                 self.finish_want[a] = (5, 0)        # check_cancelled raises for abandon on and off (walk of the chain)
             if b == 3:
@@ -1156,6 +1199,96 @@ def shrink(r: Run, msg: str, budget: int = 40) -> Run:
     return best
 
 
+# ---------------------------------------------------------------------------------------------------
+# F51 (known finding): from_thread call-back landing after the loop's last iteration
+# ---------------------------------------------------------------------------------------------------
+
+F51_PREDICATE = "from_thread_landed_after_loop_end"
+
+
+def known_finding_entry(predicate: str):
+    """known_findings.json is only ever read (VERIF_KNOWN_FINDINGS overrides the path, as in c15.py)"""
+    import os
+    from pathlib import Path
+
+    path = Path(os.environ.get("VERIF_KNOWN_FINDINGS") or (core.VERIF / "known_findings.json"))
+    try:
+        data = json.loads(path.read_text())
+    except Exception:  # noqa: BLE001
+        return None
+    for f in data.get("findings", []):
+        if f.get("property") == "C14" and f.get("status") == "known" \
+                and (f.get("match") or {}).get("predicate") == predicate:
+            return f
+    return None
+
+
+def loop_end_scenarios():
+    """Runs harness/c14_loopend.py (4 subprocesses: from_thread.run_sync / run on the stock loop and on uvloop), each with a hard
+    timeout; returns (results, problems) - problems are harness-level failures (no answer)."""
+    import subprocess
+
+    script = str(core.VERIF / "harness" / "c14_loopend.py")
+    procs = []
+    for kind in ("run_sync", "run"):
+        for uv in (0, 1):
+            procs.append((kind, uv, subprocess.Popen([core.PY, script, kind, str(uv)], env=core.impl_env(),
+                                                     stdout=subprocess.PIPE, stderr=subprocess.DEVNULL, text=True)))
+    results, problems = [], []
+    for kind, uv, p in procs:
+        try:
+            out, _ = p.communicate(timeout=45)
+        except subprocess.TimeoutExpired:
+            p.kill()
+            problems.append(f"loop-end scenario {kind}/uvloop={uv}: no answer within 45 s")
+            continue
+        line = next((ln for ln in out.splitlines() if ln.startswith("{")), None)
+        if line is None:
+            problems.append(f"loop-end scenario {kind}/uvloop={uv}: no result (exit code {p.returncode})")
+            continue
+        results.append(json.loads(line))
+    return results, problems
+
+
+def judge_loop_end(rep, results, problems):
+    """control phases must behave; the after_end phase is F51: stuck => KNOWN-FINDING if (and only if) the predicate is
+    listed in known_findings.json, RunFinishedError => fine (fixed), anything else => VIOLATION"""
+    entry = known_finding_entry(F51_PREDICATE)
+    summary = {"runs": len(results), "stuck": 0, "refused_with_RunFinishedError": 0, "known_entry": bool(entry)}
+    for msg in problems:
+        rep.violation(msg, {"kind": "harness", "scenario": "c14_loopend"}, no_input=True)
+    for r in results:
+        tag = f"from_thread.{r['kind']} on {'uvloop' if r['uvloop'] else 'stock asyncio'}"
+        replay = {"kind": "directed", "scenario": "harness/c14_loopend.py " + r["kind"] + " " + str(int(r["uvloop"])),
+                  "result": r}
+        if r.get("error"):
+            rep.violation(f"loop-end scenario ({tag}) failed: {r['error']}", replay)
+            continue
+        ph = {p["when"]: p for p in r["phases"]}
+        if ph["during"]["outcome"] != ["returned", "value"]:
+            rep.violation(f"{tag} called from the thread while the loop runs gave {ph['during']['outcome']} instead of the value",
+                          replay)
+        if ph["after_close"]["outcome"] != ["raised", "RunFinishedError"]:
+            rep.violation(f"{tag} called after loop.close() gave {ph['after_close']['outcome']} instead of RunFinishedError", replay)
+        if not ph["after_end"].get("abandoned"):
+            rep.violation(f"loop-end scenario ({tag}): the call was not abandoned as intended", replay)
+            continue
+        oc = ph["after_end"]["outcome"]
+        if oc[0] == "stuck":
+            summary["stuck"] += 1
+            if entry:
+                rep.known_finding(f"{entry['what']} [{entry['id']}, predicate {F51_PREDICATE}]")
+            else:
+                rep.violation(f"{tag} from an abandoned worker thread, handed over after the loop's last iteration and before "
+                              f"close(), waits for ever: neither a value nor RunFinishedError (predicate {F51_PREDICATE} is "
+                              f"not listed as a known finding)", replay)
+        elif oc == ["raised", "RunFinishedError"]:
+            summary["refused_with_RunFinishedError"] += 1
+        else:
+            rep.violation(f"{tag} from an abandoned worker thread after the loop's last iteration gave {oc}", replay)
+    return summary
+
+
 def clean(outs):
     return [x if isinstance(x, int) and not isinstance(x, bool) else 9999 for x in outs]
 
@@ -1180,6 +1313,12 @@ def check(tier: str) -> int:
         "worker back in the idle deque) with a 5 s timeout; a timeout is reported as a failure, never waited out",
     ]
     rep.assumptions += [
+        "KNOWN FINDING F51 (known_findings.json, predicate from_thread_landed_after_loop_end; Coq "
+        "C14_from_thread_landed_after_loop_end_refuted): from_thread.run()/run_sync() from an abandoned worker thread handed "
+        "over after the loop's last iteration and before close() waits for ever.  Reproduced deterministically by "
+        "harness/c14_loopend.py (subprocess, hard timeout, os._exit) on stock asyncio and uvloop; printed as KNOWN-FINDING "
+        "only while the predicate is listed, otherwise a VIOLATION; the positive theorem C14_from_thread_run_spec carries the "
+        "hypothesis `ended s = false`",
         "documented scope (DESIGN 11.4): AnyIO shields do not stop a native Task.cancel().  The model has the op NativeCancel; "
         "the strong bound 'functions of abandon_on_cancel=False calls <= total' is proved under the boolean hypothesis "
         "no_native_cancel_while_running and refuted without it (C14_native_cancel_defeats_non_abandon); the harness generates "
@@ -1212,6 +1351,8 @@ def check(tier: str) -> int:
                 for uv in (False, True):
                     racy.append(Run(2, False, uv, 0, racy=racy_early_cancel(c["n"], bool(c["abandon"]))).execute())
                 continue
+            if "ops" not in c:
+                continue                      # model-only witness (and/or a pointer to a directed scenario)
             plan = [tuple(c["ops"][i:i + 4]) for i in range(0, len(c["ops"]), 4)]
             # ops the (unchanged) implementation does not enable at that point are skipped, cf. plan_chooser
             runs.append(Run(c["total"], bool(c["prune"]), bool(c.get("uvloop")), c["ncalls"],
@@ -1251,6 +1392,8 @@ def check(tier: str) -> int:
         racy.append(Run(2, False, uv, 0, racy=racy_early_cancel(12 if tier == "quick" else 60, False)).execute())
         racy.append(Run(2, False, uv, 0, racy=racy_early_cancel(25 if tier == "quick" else 150, True)).execute())
         racy.append(Run(1, False, uv, 0, racy=racy_early_native_cancel(10 if tier == "quick" else 60)).execute())
+
+    le_results, le_problems = loop_end_scenarios()
 
     cases = [r.model_case() for r in runs]
     expected = [clean(r.outs) for r in runs]
@@ -1294,6 +1437,7 @@ def check(tier: str) -> int:
                       {"kind": "hang", **r.replay(), "racy_scenario": r.racy is not None})
     for r in leaks[:2]:
         rep.violation("worker pool: " + r.leak, {"kind": "monitor", **r.replay(), "racy_scenario": r.racy is not None})
+    loop_end_summary = judge_loop_end(rep, le_results, le_problems)
     tie_broken = []
     if not proofs_ok:
         tie_broken.append("proof obligation: " + str(rep.coverage.get("proof_failure", {}).get("where")))
@@ -1374,6 +1518,7 @@ def check(tier: str) -> int:
         "exhaustive_truncated_by_budget": ex_truncated,
         "racy_monitor_only_runs": len(racy),
         "corpus_cases": n_corpus,
+        "known_finding_F51_loop_end_scenarios": loop_end_summary,
         "corpus_model_witnesses": len(model_only),
         "uvloop_cases": sum(1 for r in runs + racy if r.uv),
         "reached": flags,
@@ -1384,6 +1529,7 @@ def check(tier: str) -> int:
         "op_distribution": opcount,
         "limiter_sizes": sizes,
         "max_live_functions_seen": max((r.max_live for r in runs), default=0),
+        "from_thread_callback_exceptions_delivered": sum(r.cb_exc_delivered for r in runs),
         "vm_compute_sample": len(idx),
         "vm_compute_ok": vm_ok,
         "vm_compute_sample_equal_to_impl": vm_vs_impl,
@@ -1400,6 +1546,8 @@ def check(tier: str) -> int:
                  "result_BaseException", "result_propagate check_cancelled", "function_cancellederror_propagated",
                  "spawn_failed", "native_cancel_waiting_limiter", "native_cancel_running_non_abandon",
                  "native_cancel_running_abandon", "native_cancel_in_limiter_checkpoint",
+                 "result_falsy exception", "result_from_thread.run_sync callback raises",
+                 "result_from_thread.run callback raises",
                  "obs_native_cancel_defeats_non_abandon", "rt_cancelled", "rt_completed", "rt_in_finish_cancelled",
                  "rt_after_abandon_not_cancelled"):
         if not flags.get(need):
